@@ -228,6 +228,8 @@ def r2(R):
                     if isinstance(src, ast.Name):
                         ds = [d for d in _defs(f).get(src.id, [])
                               if isinstance(d, ast.Call)]
+                        if len(_defs(f).get(src.id, [])) != 1:
+                            ds = []     # reused name: no single definition
                         for d in ds:
                             fnn = dotted(d.func)
                             if fnn and fnn[-1] == 'read' and d.args:
